@@ -206,6 +206,30 @@ func (h *Hist) govPoolShock() (string, *histTx) {
 
 // govVaultShock: governance re-sends the lending vault's parameters with another epoch length (the number of blocks between two
 // adjustments of the interest rate; the default is 1) - everything else as it stands.
+// govAmmShock: governance moves ONE of the amm module's fee parameters to another value its validation accepts (the defaults are
+// what every test of the repository runs with: portions of exactly one half make "the treasury's share" and "the pool's share" of a
+// weight-breaking fee the same number).
+func (h *Hist) govAmmShock() string {
+	var p ammtypes.Params
+	h.w.Seed(func(ctx sdk.Context) { p = h.w.App.AmmKeeper.GetParams(ctx) })
+	what := ""
+	switch h.r.Intn(4) {
+	case 0, 1:
+		p.WeightBreakingFeePortion = D([]string{"0", "0.2", "0.75", "1"}[h.r.Intn(4)])
+		what = "amm.WeightBreakingFeePortion=" + p.WeightBreakingFeePortion.String()
+	case 2:
+		p.WeightRecoveryFeePortion = D([]string{"0", "0.3", "0.9", "1"}[h.r.Intn(4)])
+		what = "amm.WeightRecoveryFeePortion=" + p.WeightRecoveryFeePortion.String()
+	default:
+		p.WeightBreakingFeeMultiplier = D([]string{"0", "0.0002", "0.002"}[h.r.Intn(3)])
+		what = "amm.WeightBreakingFeeMultiplier=" + p.WeightBreakingFeeMultiplier.String()
+	}
+	if h.govApplyRecorded(&ammtypes.MsgUpdateParams{Authority: h.w.Gov, Params: &p}) {
+		return what
+	}
+	return ""
+}
+
 func (h *Hist) govVaultShock() string {
 	var fresh sstypes.Params
 	h.w.Seed(func(ctx sdk.Context) { fresh = h.w.App.StablestakeKeeper.GetParams(ctx) })
